@@ -3,6 +3,7 @@ package main
 // Specification expressions -> SMT terms; applying and checking contracts.
 
 import (
+	"os"
 	"fmt"
 	"go/ast"
 	"go/constant"
@@ -690,6 +691,99 @@ func (e *specEnv) call(x *ast.CallExpr) specVal {
 
 // applySpec: non-recursive spec functions are macros; recursive ones are
 // uninterpreted symbols with a one-step unfolding instance at closed applications.
+// GoalTree: a Boolean specification goal kept as its decision tree (ite nodes of relation
+// bodies, spec relations inlined) so that the solver layer can decide one condition at a
+// time instead of case-splitting over the whole relation.
+type GoalTree struct {
+	Cond Term
+	A, B *GoalTree
+	Leaf Term
+}
+
+func (t *GoalTree) leaves() int {
+	if t == nil {
+		return 0
+	}
+	if t.A == nil {
+		return 1
+	}
+	return t.A.leaves() + t.B.leaves()
+}
+
+func treeish(tr *Tr, x ast.Expr, depth int) bool {
+	if p, ok := x.(*ast.ParenExpr); ok {
+		return treeish(tr, p.X, depth)
+	}
+	call, ok := x.(*ast.CallExpr)
+	if !ok || depth > 6 {
+		return false
+	}
+	id, ok := call.Fun.(*ast.Ident)
+	if !ok {
+		return false
+	}
+	if id.Name == "ite" && len(call.Args) == 3 {
+		return true
+	}
+	if sf := tr.eng.contracts.specs[id.Name]; sf != nil && !sf.rec && !sf.abstract && sf.body != nil && isBoolType(sf.rtype) && len(call.Args) == len(sf.params) {
+		return treeish(tr, sf.body, depth+1)
+	}
+	return false
+}
+
+func isBoolType(t types.Type) bool {
+	b, ok := t.Underlying().(*types.Basic)
+	return ok && b.Kind() == types.Bool
+}
+
+// tree evaluates the Boolean expression x to its decision tree.
+func (e *specEnv) tree(x ast.Expr) *GoalTree {
+	if p, ok := x.(*ast.ParenExpr); ok {
+		return e.tree(p.X)
+	}
+	if call, ok := x.(*ast.CallExpr); ok && treeish(e.tr, x, e.depth) {
+		id := call.Fun.(*ast.Ident)
+		if id.Name == "ite" {
+			c := e.evalBool(call.Args[0])
+			switch c {
+			case "true":
+				return e.tree(call.Args[1])
+			case "false":
+				return e.tree(call.Args[2])
+			}
+			return &GoalTree{Cond: c, A: e.tree(call.Args[1]), B: e.tree(call.Args[2])}
+		}
+		sf := e.tr.eng.contracts.specs[id.Name]
+		bind := map[string]specVal{}
+		for i, v := range e.specArgs(sf, call) {
+			if len(v.t) > 40 && !e.tr.openTerm(v.t) {
+				v.t = e.tr.define("ta_"+sf.params[i], e.sorts().sortOf(sf.ptypes[i]), v.t)
+			}
+			bind[sf.params[i]] = v
+		}
+		n := &specEnv{a: nil, tr: e.tr, pkg: sf.pkg, st: e.st, old: e.old, vars: bind, errs: e.errs, depth: e.depth + 1}
+		return n.tree(sf.body)
+	}
+	return &GoalTree{Leaf: e.evalBool(x)}
+}
+
+// specArgs evaluates and coerces the arguments of a spec function application.
+func (e *specEnv) specArgs(sf *SpecFunc, x *ast.CallExpr) []specVal {
+	args := make([]specVal, len(x.Args))
+	for i := range x.Args {
+		v := e.eval(x.Args[i])
+		if isInterface(sf.ptypes[i]) && (v.typ == nil || !isInterface(v.typ)) {
+			v = specVal{e.toVal(v), sf.ptypes[i]}
+		} else if v.typ == nil {
+			v = specVal{e.sorts().zero(sf.ptypes[i]), sf.ptypes[i]}
+		} else {
+			v.typ = sf.ptypes[i]
+		}
+		args[i] = v
+	}
+	return args
+}
+
 func (e *specEnv) applySpec(sf *SpecFunc, x *ast.CallExpr) specVal {
 	tr := e.tr
 	if len(x.Args) != len(sf.params) {
@@ -908,6 +1002,9 @@ func (a *Act) lookupLocalVar(e *specEnv, name string) (specVal, bool) {
 			if !ok || id.Name != name {
 				continue
 			}
+			if obj := dr.Object(); obj != nil && obj.Pkg() != nil && obj.Parent() == obj.Pkg().Scope() {
+				continue // a package-level variable, not a local
+			}
 			if _, defined := a.vals[dr.X]; !defined {
 				if _, isConst := dr.X.(*ssa.Const); !isConst {
 					continue
@@ -931,6 +1028,9 @@ func (a *Act) lookupLocalVar(e *specEnv, name string) (specVal, bool) {
 		}
 	}
 	if best != nil {
+		if os.Getenv("GOVC_DBG") != "" {
+			fmt.Fprintf(os.Stderr, "lookupLocalVar %s -> %s %T %s\n", name, best.Name(), best, best.String())
+		}
 		return specVal{a.val(best), best.Type()}, true
 	}
 	return specVal{}, false
@@ -1046,6 +1146,17 @@ func (a *Act) atReturn(st *State, in *ssa.Return, results []Term) {
 		g := e.evalBool(c.expr)
 		o := a.obligePost(st, in.Pos(), c, g)
 		_ = o
+	}
+	for _, g := range a.tr.eng.storesFrozen(a.fn) {
+		if !a.tr.eng.frozenActive(a.tr.prop) {
+			break
+		}
+		t := g.Type().Underlying().(*types.Pointer).Elem()
+		c := a.tr.cellComp(t)
+		addr := a.tr.eng.globalAddr(g)
+		now := a.tr.read(a.tr.heapOf(st, c), addr)
+		was := a.tr.read(a.tr.heapOf(a.entryState, c), addr)
+		a.obligePost(st, in.Pos(), &clause{text: "frozen " + g.Name() + " restored"}, Eq(now, was))
 	}
 	for _, m := range errs {
 		a.tr.specErr(fmt.Sprintf("%s (ensures): %s", fc.name, m))
